@@ -634,6 +634,34 @@ def history_cases(tier, rng):
     return out
 
 
+# ------------------------------------------------------------------ molecule graphs as the library builds them
+
+MOLS = ["c1ccccc1", "CC(C)(C)c1ccccc1", "OC(=O)CCC(=O)O", "C1CCCCC1", "c1ccc2ccccc2c1", "CC(C)CC(C)C", "OB(O)c1ccc(Br)cc1",
+        "[O-][N+](=O)c1ccccc1", "[H]C([H])([H])[H]", "[H]C([H])=C([H])[H]", "C1CC1.C1CC1", "CCO.CCO.O", "[NH4+].[Cl-]", "C[N+](C)(C)C",
+        "ClC(Cl)(Cl)Cl", "FC(F)(F)C(F)(F)F", "c1ccncc1", "C1=CC=CC=C1", "O=C=O", "N#N", "CC(=O)OC(C)=O", "C12C3C4C1C5C2C3C45"]
+
+
+def mol_cases(tier, rng):
+    """graphs produced by smiles_to_graph (all the attributes the library puts on atoms and bonds: aromatic flags, float bond
+    orders, the list-valued neighbors, atom_map ...): symmetric and charged molecules, explicit hydrogens, several species,
+    cubane; plus reactant molecules of the USPTO sample"""
+    from synkit.IO.chem_converter import smiles_to_graph
+    smis = list(MOLS)
+    rx = corpus("uspto")
+    pool = sorted({m for r in rx for m in r.split(">>")[0].split(".")})
+    smis += rng.sample(pool, min(len(pool), 12 if tier == "quick" else 150))
+    out = []
+    for smi in smis:
+        try:
+            G = smiles_to_graph(smi, drop_non_aam=False, use_index_as_atom_map=True)
+        except Exception:
+            continue
+        if G is None or G.number_of_nodes() == 0 or G.number_of_nodes() > (25 if tier == "quick" else 45):      # model cost: 0.1-3 s each
+            continue
+        out.append(dict(kind="aut", name="mol/" + smi, g=GG.from_nx(G)))
+    return out
+
+
 # ------------------------------------------------------------------ orbit.py: OrbitAccuracy(approx, exact)
 
 def _rand_partition(ids, rng):
@@ -786,6 +814,7 @@ def gen_cases(tier, rng):
     cases += history_cases(tier, rng)
     cases += orbacc_cases(tier, rng)
     cases += views_cases(tier, rng)
+    cases += mol_cases(tier, rng)
     # rule applications
     cases += hand_cases(tier)
     cases += corpus_cases(tier, rng)
